@@ -2,7 +2,7 @@
 # usage: tools/refac_rerun.sh [names...]  - re-applies the saved behaviour-preserving refactorings (seeded/refactorings/<name>/patch.diff)
 # to a scratch worktree of /repo's HEAD and runs every quick check against it; writes seeded/refactorings/<name>/result.txt
 cd "$(dirname "$0")/.."
-names="$@"; [ -z "$names" ] && names=$(ls seeded/refactorings | grep '^R')
+names="$@"; [ -z "$names" ] && names=$(ls seeded/refactorings | grep '^R[0-9]')
 for n in $names; do
   wt=/var/tmp/verif-refac-$n
   git -C /repo worktree add --detach -q $wt HEAD || continue
